@@ -41,9 +41,19 @@ c = contract(M, 'Machine.stop', serves=['C09'])
 def _setup(b, case):
     m = lib.machine(b, 'LOGICAL', lib.light_set_with(b, {}))
     m.attrs['_keep_running'] = b.sym('bool', 'keep_running')
+    # the job thread leaves its delay as soon as the clock is stopped: what it then reads of the run flag is what the flag is AT THAT
+    # MOMENT, so the flag has to be down before the clock is told
+    clk = m.attrs['_clock']
+    inner = clk.methods['stop']
+    def stop(I_, o, a, k):
+        I_.ghost['run_flag_when_the_clock_was_stopped'] = m.attrs['_keep_running']
+        return inner(I_, o, a, k)
+    clk.methods['stop'] = stop
+    b.ghost('run_flag_when_the_clock_was_stopped', None)
     return {'self': m}
 c.setup(_setup)
 c.ensures('clears-the-run-flag-and-stops-the-clock', "self._keep_running is False and len(ghost('Clk')) == 1 and ghost('Clk')[0][0] == 'stop'")
+c.ensures('flag-first-then-the-clock', "ghost('run_flag_when_the_clock_was_stopped') is False")
 
 # ---- Machine.run: the flag is consulted before every instruction; nothing is executed after it was seen cleared;
 # the clock is stopped and output flushed on every way out
